@@ -2,8 +2,8 @@
   Channel skeletons of goroutines: types and executable semantics (core Lean only).
 
   A system is a fixed list of processes (goroutines), each a control-flow graph whose nodes are
-  Go `select`s (`comm`), `close`, data-abstracted branches (`choice`) and `halt`, plus a list of
-  channel kinds.  Data is erased: a state is the vector of program counters, the number of items
+  Go `select`s (`comm`), `close`, data-abstracted branches (`choice`), `halt` and `recvOrClosed` (a receive that
+  tells an item from "closed and empty": `for range ch`), plus a list of channel kinds.  Data is erased: a state is the vector of program counters, the number of items
   in every buffered channel, the closed flags, and a sticky `bad` flag (Go would have panicked).
 
   Semantic choices (each errs on the side of MORE behaviours / FEWER "enabled" claims, so that a property
@@ -33,6 +33,8 @@ inductive Node where
   | close (chan next : Nat)                          -- `close(ch)`
   | choice (nexts : List Nat)                        -- data-dependent branch, or plain `skip` when one successor
   | halt                                             -- the goroutine returned
+  | recvOrClosed (chan nextItem nextClosed : Nat)    -- `v, ok := <-ch` / one round of `for range ch`: an item → `nextItem`,
+                                                     -- closed and empty → `nextClosed`
 deriving DecidableEq, Repr, Inhabited
 
 structure Proc where
@@ -132,6 +134,16 @@ def recvSucc (y : Sys) (s : State) (i : Nat) (k : Comm) : List (Nat × State) :=
     | some .external => [(i, s.setPc i k.next)]
     | _ => []
 
+/-- successors of `recvOrClosed c nI nC` of process `i` (a rendezvous is generated from the sender's side): an item is
+taken if there is one, EVEN IF the channel is closed (Go drains a closed channel first); closed and empty → `nC`.
+On an `external` channel the environment may deliver an item or close at any time. -/
+def rangeSucc (y : Sys) (s : State) (i c nI nC : Nat) : List (Nat × State) :=
+  bif Nat.blt 0 (s.buf c) then [(i, (s.setPc i nI).setBuf c (Nat.sub (s.buf c) 1))]
+  else bif s.isClosed c then [(i, s.setPc i nC)]
+  else match y.kinds[c]? with
+    | some .external => [(i, s.setPc i nI), (i, s.setPc i nC)]
+    | _ => []
+
 /-- rendezvous of sender `i` (case `k`, its select has a default iff `hasD`) with the receive cases of process `j`.
 No rendezvous when BOTH selects have a `default`: neither goroutine ever parks, each polls and falls through. -/
 def partnerSucc (y : Sys) (s : State) (i : Nat) (hasD : Bool) (k : Comm) (j : Nat) : List (Nat × State) :=
@@ -140,6 +152,8 @@ def partnerSucc (y : Sys) (s : State) (i : Nat) (hasD : Bool) (k : Comm) (j : Na
     bif hasD && d.isSome then []
     else cs.filterMap fun k' =>
       bif !k'.send && Nat.beq k'.chan k.chan then some (i, (s.setPc i k.next).setPc j k'.next) else none
+  | .recvOrClosed c nI _ =>
+    bif Nat.beq c k.chan then [(i, (s.setPc i k.next).setPc j nI)] else []
   | _ => []
 
 /-- successors through the send case `k` of process `i` -/
@@ -172,6 +186,7 @@ def procNext (y : Sys) (s : State) (i : Nat) : List (Nat × State) :=
   | .close c n => [(i, closeSucc y s i c n)]
   | .choice ns => ns.map fun n => (i, s.setPc i n)
   | .halt => []
+  | .recvOrClosed c nI nC => rangeSucc y s i c nI nC
 
 /-- all one-step successors, labelled with the moving process (the sender for a rendezvous).
 A `bad` state has no successor (the program panicked), so `bad` is trivially sticky. -/
@@ -196,6 +211,7 @@ def procStrict (y : Sys) (s : State) (i : Nat) : List (Nat × State) :=
   | .close c n => [(i, closeSucc y s i c n)]
   | .choice ns => ns.map fun n => (i, s.setPc i n)
   | .halt => []
+  | .recvOrClosed c nI nC => bif recvReady s c then rangeSucc y s i c nI nC else []
 
 /-- the states process `i` can move to NOW without relying on any other process or the environment -/
 def strictNext (y : Sys) (s : State) (i : Nat) : List State :=
@@ -210,5 +226,6 @@ def enabledStrict (y : Sys) (s : State) (i : Nat) : Bool :=
   | .comm cs d => !s.bad && (d.isSome || cs.any (caseReady y s))
   | .close _ _ => !s.bad
   | .choice ns => !s.bad && !ns.isEmpty
+  | .recvOrClosed c _ _ => !s.bad && recvReady s c
 
 end Raft.Chan
